@@ -175,12 +175,14 @@ func cmdCheck(args []string) {
 		}
 		// function literals: the closures of a root unit belong to the property; closures of functions that are only
 		// reached as callees (e.g. the backward rules behind a forward operation) belong to the properties that name them
-		if isRoot[u.Name] {
-			for _, lit := range u.Lits {
-				if !seen[lit.Name] && lit.HasSpec {
+		// A closure under a function-type protocol (an element generator) is part of its parent's proof wherever the
+		// parent is reached: the parent assumes the closure's "yields" where it creates it.
+		for _, lit := range u.Lits {
+			if !seen[lit.Name] && lit.HasSpec && (isRoot[u.Name] || lit.Implements != "") {
+				if isRoot[u.Name] {
 					isRoot[lit.Name] = true
-					todo = append(todo, lit)
 				}
+				todo = append(todo, lit)
 			}
 		}
 		lemmaNames := append([]string(nil), u.Uses...)
